@@ -6,7 +6,8 @@ import subprocess
 import sys
 
 sys.path.insert(0, os.path.dirname(os.path.abspath(__file__)))
-from props import CLAIMS, NOT_APPLICABLE  # noqa: E402
+from props import NOT_APPLICABLE  # noqa: E402
+from engines import CLAIMS  # noqa: E402
 
 V = os.path.dirname(os.path.dirname(os.path.abspath(__file__)))
 ids = [json.loads(l)["id"] for l in open(os.path.join(V, "properties.jsonl"))]
